@@ -28,6 +28,20 @@ Theorem C12_down_up_inverse : forall (A : Type) (dflt : A) (d : list A) (fixed :
 Proof. exact @down_up_inverse. Qed.
 Print Assumptions C12_down_up_inverse.
 
+(** a fixed value is a value whatever number it is (0 in particular; [Some 0] is not [None]): slot by slot, a parameter
+    fixed at [v] is dropped when contracting and written back as [v] when expanding, a free one is kept and consumed *)
+Theorem C12_project_fixed_slot : forall (A : Type) (dflt v x : A) (p : list A) (fx : list (option A)) (d : list A),
+  project_down (x :: p) (Some (Some v :: fx)) = Some d ->
+  project_down p (Some fx) = Some d /\
+  project_up dflt d (Some (Some v :: fx)) = v :: project_up dflt d (Some fx).
+Proof. exact @project_fixed_slot. Qed.
+
+Theorem C12_project_free_slot : forall (A : Type) (dflt x : A) (p : list A) (fx : list (option A)) (d : list A),
+  project_down (x :: p) (Some (None :: fx)) = Some d ->
+  exists d', d = x :: d' /\ project_down p (Some fx) = Some d' /\
+             project_up dflt d (Some (None :: fx)) = x :: project_up dflt d' (Some fx).
+Proof. exact @project_free_slot. Qed.
+
 (** *** the model is never evaluated outside the bounds: from the bound test of _object_func alone,
         for ANY optimiser, any start, any point it may try (optimize, optimize_log, optimize_log_fmin, optimize_log_powell) *)
 Theorem C12_never_evaluates_out_of_bounds :
@@ -229,3 +243,13 @@ Example C12_nonvacuous :
     contract true (w_lo w) (w_hi w) (w_start w) (fun x => fst (opt_objective ll_first ll_first false (Some [None; Some 5]) false x)) (w_oracle w) /\
     w_x w = [1; 5].
 Proof. exact opt_contract_nonvacuous. Qed.
+
+(** non-vacuity at zero: parameters fixed at exactly 0 before and after a free one; opt with a leading parameter fixed at 0
+    starts from the free entry of p0 and evaluates the model at (0, p0_1) *)
+Example C12_zero_fixed_nonvacuous :
+  project_down [1; 2; 3] (Some [Some 0; None; Some 0]) = Some [2] /\
+  project_up 7 [2] (Some [Some 0; None; Some 0]) = [0; 2; 0] /\
+  exists w, opt ll_first ll_first O_start [1; 2] None None (Some [Some 0; None]) false false = Some w /\
+    contract true (w_lo w) (w_hi w) (w_start w) (fun x => fst (opt_objective ll_first ll_first false (Some [Some 0; None]) false x)) (w_oracle w) /\
+    w_start w = [2] /\ w_x w = [0; 2] /\ w_evals w = [[0; 2]].
+Proof. exact zero_fixed_nonvacuous. Qed.
